@@ -55,7 +55,8 @@ IsDigit(c)  == c >= 48 /\ c <= 57
 IsLetter(c) == (c >= 97 /\ c <= 122) \/ (c >= 65 /\ c <= 90)
 IsIdent(c)  == IsLetter(c) \/ c = 95
 \* Unicode White_Space (what char::is_whitespace tests)
-IsSpace(c)  == \/ c \in {9, 10, 11, 12, 13, 32, 133, 160, 5760, 8232, 8233, 8239, 8287, 12288}
+IsSpace(c)  == \/ c = 32 \/ c = 10
+               \/ c \in {9, 11, 12, 13, 133, 160, 5760, 8232, 8233, 8239, 8287, 12288}
                \/ (c >= 8192 /\ c <= 8202)
 IsHex(c)    == IsDigit(c) \/ (c >= 97 /\ c <= 102) \/ (c >= 65 /\ c <= 70)
 HexVal(c)   == IF IsDigit(c) THEN c - 48 ELSE IF c >= 97 THEN c - 87 ELSE c - 55
@@ -183,10 +184,11 @@ HexScan(t, i, v, nd, sig, ok) ==
 RECURSIVE ScanStr(_, _, _, _, _, _)
 ScanStr(t, q, i, buf, errs, trig) ==
   LET c == At(t, i)
-      fin(e, closed) == [Tok(IF errs = <<>> /\ closed THEN "str" ELSE "bad", q, e)
-                           EXCEPT !.s = buf, !.trig = trig,
+      fin2(e, closed, tr) == [Tok(IF errs = <<>> /\ closed THEN "str" ELSE "bad", q, e)
+                           EXCEPT !.s = buf, !.trig = tr,
                                   !.errs = IF closed THEN errs
                                            ELSE Append(errs, Err("UnterminatedString", q, e))]
+      fin(e, closed) == fin2(e, closed, trig)
   IN
   IF c = -1 THEN fin(i, FALSE)
   ELSE IF c = 34 THEN fin(i + 1, TRUE)
@@ -203,7 +205,7 @@ ScanStr(t, q, i, buf, errs, trig) ==
                  THEN ScanStr(t, q, i + 2, buf, Append(errs, Err("BadUnicodeEscape", i, i + 2)),
                               trig \cup {"u_no_brace"})
                  ELSE LET h == HexScan(t, i + 3, 0, 0, 0, TRUE) IN
-                      IF h.e = -1 THEN fin(Len(t) + 1, FALSE)
+                      IF h.e = -1 THEN fin2(Len(t) + 1, FALSE, IF h.sig > 8 THEN trig \cup {"u_overflow"} ELSE trig)
                       ELSE IF h.ok /\ h.nd >= 1 /\ IsScalar(h.v)
                            THEN ScanStr(t, q, h.e, Append(buf, h.v), errs, trig)
                            ELSE ScanStr(t, q, h.e, buf, Append(errs, Err("BadUnicodeEscape", i, h.e)),
@@ -219,18 +221,23 @@ CommentEnd(t, i) == IF At(t, i) = -1 \/ At(t, i) = 10 THEN i ELSE CommentEnd(t, 
 Punct(c) == IF c = 40 THEN "(" ELSE IF c = 41 THEN ")" ELSE IF c = 91 THEN "[" ELSE IF c = 93 THEN "]"
             ELSE IF c = 61 THEN "=" ELSE IF c = 44 THEN "," ELSE ""
 
+RECURSIVE SkipBlanks(_, _)
+SkipBlanks(t, i) == IF i <= Len(t) /\ IsSpace(t[i]) THEN SkipBlanks(t, i + 1) ELSE i
+
 RECURSIVE LexFrom(_, _, _)
-LexFrom(t, i, acc) ==
+LexFrom(t, i0, acc) ==
+  LET i == SkipBlanks(t, i0) IN
   IF i > Len(t) THEN acc
-  ELSE LET c == t[i] IN
-       IF IsSpace(c) THEN LexFrom(t, i + 1, acc)
-       ELSE IF c = 35 THEN LET j == CommentEnd(t, i) IN LexFrom(t, j, Append(acc, Tok("cmt", i, j)))
-       ELSE IF Punct(c) # "" THEN LexFrom(t, i + 1, Append(acc, Tok(Punct(c), i, i + 1)))
+  ELSE LET c == t[i]
+           p == Punct(c)
+       IN
+       IF p # "" THEN LexFrom(t, i + 1, Append(acc, Tok(p, i, i + 1)))
        ELSE IF IsLetter(c)
             THEN LET j == IdentEnd(t, i + 1)
                  IN LexFrom(t, j, Append(acc, [Tok("id", i, j) EXCEPT !.s = SubSeq(t, i, j - 1)]))
        ELSE IF c = 34 THEN LET k == ScanStr(t, i, i + 1, <<>>, <<>>, {}) IN LexFrom(t, k.b, Append(acc, k))
        ELSE IF IsDigit(c) \/ c = 45 THEN LET k == ScanNumber(t, i) IN LexFrom(t, k.b, Append(acc, k))
+       ELSE IF c = 35 THEN LET j == CommentEnd(t, i) IN LexFrom(t, j, Append(acc, Tok("cmt", i, j)))
        ELSE LexFrom(t, i + 1, Append(acc, [Tok("bad", i, i + 1) EXCEPT !.errs = <<Err("InvalidCharacter", i, i + 1)>>]))
 
 Lex(t) == LexFrom(t, 1, <<>>)
